@@ -78,7 +78,7 @@ theorem RaftInv.setPr {val : Val} {voters : List Id} {n : Nat} {r : Raft} {nd : 
   exact {
     abs := hinv.abs.congr rfl rfl rfl rfl
     st := {
-      id := hinv.st.id, idnz := hinv.st.idnz, pv := hinv.st.pv, cq := hinv.st.cq, xfer := hinv.st.xfer,
+      id := hinv.st.id, idnz := hinv.st.idnz, pv := hinv.st.pv, xfer := hinv.st.xfer,
       pri := hinv.st.pri, ro := hinv.st.ro, tvoters := hinv.st.tvoters, tout := hinv.st.tout,
       tauto := hinv.st.tauto, self := hinv.st.self
       prog := by
@@ -332,7 +332,6 @@ theorem sim_sends {val : Val} {voters : List Id} {n : Nat} {s : Spec.State} {a r
       id := by rw [sf.cfg]; exact hi.st.id
       idnz := hi.st.idnz
       pv := by rw [sf.cfg]; exact hi.st.pv
-      cq := by rw [sf.cfg]; exact hi.st.cq
       xfer := sf.leadTransferee.trans hi.st.xfer
       pri := sf.pendingReadIndexMessages.trans hi.st.pri
       ro := by rw [sf.readOnly]; exact hi.st.ro
